@@ -1,7 +1,7 @@
 """Per-property checks: scopes, jobs, evidence.  See DESIGN.md section 5."""
 import json, os, sys, time
 import sfv
-from sfv import Run, p1_job, pair_job, p2_job, p3_stream_job, exp_job, record, model_job, conf_job, log
+from sfv import Run, p1_job, pair_job, p2_job, p3_stream_job, exp_job, record, model_job, conf_job, apalache_job, log
 import random
 
 CHECKS = {}
@@ -49,6 +49,8 @@ def c02(tier):
         sc = {"prop": "C02", "cfgs": cfgs(kinds, [n]), "alphabet": alpha, "unit": 1, "maxlen": L, "extras": True}
         run.submit(p1_job, "w-n%d" % n, "MC_Def", sc)
         with_model(run, "w-n%d" % n, sc)
+    run.submit(apalache_job, "Ind_Sma")
+    run.submit(apalache_job, "Ind_Ext")
     # decimal unit: same definitions on inputs k/10 (not exactly representable): the statement allows rounding noise
     # proportional to the magnitude; sqrt-type outputs amplify 1e-16 to 1e-8, hence 1e-6 here (C16's figure)
     run.submit(p1_job, "w-dec", "MC_Def", {"prop": "C02", "cfgs": cfgs(kinds, [2, 3]), "alphabet": [-7, 0, 3, 12], "unit": 10, "maxlen": 5 if tier == "quick" else 7, "extras": True,
@@ -70,6 +72,7 @@ def c05(tier):
             sc = {"prop": "C05", "cfgs": cfgs(kinds, [n]), "alphabet": alpha, "unit": 1, "maxlen": L}
             run.submit(p1_job, "rsi-n%d-a%d" % (n, alpha[0]), "MC_Def", sc)
             with_model(run, "rsi-n%d-a%d" % (n, alpha[0]), sc)
+    run.submit(apalache_job, "Ind_MyRsi")
     return run.finish(RULE_DEF)
 
 @check("C06")
@@ -238,6 +241,9 @@ def c03(tier):
     pairs = [([], [7]), ([100], [-50, 7]), ([7, 100, -50], [100]), ([-50, -50, 100, 7, 100], [7, 7])]
     if tier != "quick":
         pairs += [([100, 7], [7, 100]), ([1000000, -999999, 3], []), ([5] * 9, [100, -50] * 6)]
+    # model level: the machine state is a function of the ghost window of the last K inputs (Apalache, all integers, all lengths)
+    for m in ("Ind_Sma", "Ind_Ext", "Ind_MyRsi"):
+        run.submit(apalache_job, m)
     plan = [(1, 4), (2, 6), (3, 7)] if tier == "quick" else [(1, 5), (2, 7), (3, 8), (4, 9), (5, 10)]
     for n, L in plan:
         A = [-2, 0, 1, 3] if L <= 5 else ([-2, 0, 3] if L <= 8 else [0, 3])
